@@ -11,8 +11,9 @@
 (*                               real place it leads to, as segments from  *)
 (*                               <<0>> = <home> (<<>>: nowhere)            *)
 (*   Clock  d ms                 the virtual clock is set                  *)
-(*   Open   id oname level cur obs    the logger is constructed            *)
-(*   Conf   level iv keep rot    ApplyConfig / SetLevel                    *)
+(*   Open   id oname level so cur obs the logger is constructed (so: the   *)
+(*                               "also to standard output" option)         *)
+(*   Conf   level iv keep rot so ApplyConfig / SetLevel                    *)
 (*   Log    kind pid s obs       one logging call, sequential              *)
 (*   Log    kind pid s em stamp raw g seq   one call of a concurrent burst *)
 (*                               in the order the file itself gives; raw = *)
@@ -97,13 +98,13 @@ TraceClock == /\ Step("Clock")
 TraceOpen == /\ Step("Open")
              /\ LET e == Trace[l]
                     n == e.id \o <<DASH>> \o e.oname \o <<DASH>> \o YMD(now.d) \o DotLog
-                IN  /\ Open(e.id, e.oname, e.level, AddOf(e.obs, n))
+                IN  /\ Open(e.id, e.oname, e.level, e.so, AddOf(e.obs, n))
                     /\ ObsOK(e.obs)
                     /\ e.cur = cur'
              /\ UNCHANGED <<gseq, outside>>
 
 TraceConf == /\ Step("Conf")
-             /\ LET e == Trace[l] IN Configure(e.level, e.iv, e.keep, e.rot)
+             /\ LET e == Trace[l] IN Configure(e.level, e.iv, e.keep, e.rot, e.so)
              /\ UNCHANGED <<gseq, outside>>
 
 TraceLog ==
